@@ -49,6 +49,14 @@ pub struct StreamSpec {
     /// call reset this long after finish() (0 = never)
     #[serde(default)]
     pub reset_after_finish_us: u64,
+    /// how the sending application writes: "" | "send" (Bytes), "vec" (send_vectored), "tokio" (AsyncWrite::write),
+    /// "tokio_vec" (AsyncWrite::write_vectored with two buffers per call)
+    #[serde(default)]
+    pub write_mode: String,
+    /// how the receiving application reads: "" | "recv", "vec2" / "vec8" (receive_vectored with k slots),
+    /// "tokio64" / "tokio4096" (AsyncRead::read into a buffer of that size), "tokio_vec" (read_vectored, two 100-byte buffers)
+    #[serde(default)]
+    pub read_mode: String,
     /// the reader waits this long before its first receive/stop call
     #[serde(default)]
     pub read_start_delay_us: u64,
